@@ -27,6 +27,11 @@ ASSUMPTIONS = [
   "SciPy SLSQP / L-BFGS-B enter the multistart model only through (raised, success, x, fun) of each run; 'a constrained SLSQP run started inside "
   "ends inside' is a property of SciPy exercised by the searcher only",
 ]
+ASSUMPTIONS += [
+  "'return exactly the evaluated point of highest value; its reported value is reproducible' is also read on the optimiser OBJECT after the library's own next step "
+  "(anchor mechanism 'ES result seeds the gradient stage': generate_random_points_near_point around the returned point, the rest of "
+  "vectorized_acquisition_optimization): best_location / best_value - the property's state - and the array optimize() returned still are that evaluated point",
+]
 TRUSTED = ["tools/props/C07.py: case generator, numpy.random scripting layer, recording wrappers, Q-literal printer",
            "Model/OptimCorr.v check function"]
 
@@ -206,8 +211,29 @@ def run_vec(inp):
   rec["prior_evals"] = prior
   if sel0 is not None and not numpy.array_equal(sel0, sel_copy):
     rec["selected_modified"] = True
-  return dict(error=None, best=numpy.array(best, dtype=float), best_value=float(opt.best_value), start=numpy.array(res.starting_points),
-              end=numpy.array(res.ending_points), vals=numpy.array(res.function_values), rec=rec)
+  out = dict(error=None, best=numpy.array(best, dtype=float), best_value=float(opt.best_value), start=numpy.array(res.starting_points),
+             end=numpy.array(res.ending_points), vals=numpy.array(res.function_values), rec=rec)
+  out["after_next_step"] = next_step(L, dom, opt, best, inp.get("post_seed", 0), rec)
+  return out
+
+
+def next_step(L, dom, opt, best, seed, rec=None):
+  """What the library does next with an optimiser's result (vectorized_acquisition_optimization: 'ES result seeds the gradient stage'): it asks the
+  domain for points near the returned point.  Returns the optimiser's best_location / best_value and the returned array as they stand AFTERWARDS
+  (the recorders of the harness are put back as they were: the step is not part of the run that the model replays)."""
+  from libsigopt.compute.misc.constant import AF_OPT_NEAR_BEST_STD_DEV
+  keep = None if rec is None else {k: len(rec[k]) for k in ("rins", "routs", "gen_calls", "ru_used")}
+  state = numpy.random.get_state()
+  numpy.random.seed(int(seed) % (2 ** 32))
+  try:
+    near = dom.generate_random_points_near_point(8, best, AF_OPT_NEAR_BEST_STD_DEV)
+  finally:
+    numpy.random.set_state(state)
+    if keep:
+      for k, n in keep.items():
+        del rec[k][n:]
+  return dict(best_location=numpy.array(opt.best_location, dtype=float), best_value=float(opt.best_value), returned=numpy.array(best, dtype=float),
+              near=numpy.array(near, dtype=float))
 
 
 def run_ms(inp):
@@ -278,8 +304,9 @@ def gen_domain(rng, dim, constrained, fixed):
     for _ in range(rng.randint(1, 2)):
       w = [0.0] * dim
       idx = rng.sample(free, rng.randint(2, len(free)))
+      frac = rng.random() < 0.5     # a weighted average / small coefficients: absolute weights sum to at most 1 (still >= 2 non-zero weights)
       for k in idx:
-        w[k] = float(rng.choice([-2, -1, 1, 2]))
+        w[k] = float(rng.choice([-1, 1]) * rng.choice([0.125, 0.25] if len(idx) > 2 else [0.125, 0.25, 0.5])) if frac else float(rng.choice([-2, -1, 1, 2]))
       mid = sum(w[k] * (lb[k] + ub[k]) / 2 for k in range(dim))
       half = sum(abs(w[k]) * (ub[k] - lb[k]) / 2 for k in range(dim))
       cons.append(w + [mid - half * rng.choice([0.25, 0.5, 0.75])])   # w.x >= rhs cuts a corner, keeps the centre strictly inside
@@ -680,6 +707,10 @@ def smooth_af(coef, p):
   return -sum(a * (x - c) ** 2 for a, c, x in zip(coef["a"], coef["c"], p)) + coef["s"] * math.sin(sum(p))
 
 
+NEXT_STEP_WHAT = ("after the library's own next step - points near the returned best point, as vectorized_acquisition_optimization seeds the gradient stage - "
+                  "the optimiser's best_location (and the array optimize() returned) is no longer the evaluated point of highest value")
+
+
 def oracle_vec(inp):
   """Real DEOptimizer / AdamOptimizer with NumPy's own generator (seeded), a smooth real-valued objective and real
   quasi-random starts; the property is checked directly on the recorded evaluations."""
@@ -734,6 +765,8 @@ def oracle_vec(inp):
   numpy.random.seed(inp["seed"])
   try:
     best, res = opt.optimize(selected_starts=sel)
+    returned = numpy.array(best, dtype=float)
+    post = next_step(L, dom, opt, best, inp["seed"], rec)
   except ValueError as e:
     # numpy.nanargmax raises when the batch just evaluated has no value at all (the function is undefined at every point of it): nothing is
     # returned, the clauses are void (reading in ASSUMPTIONS); any other ValueError on a valid input is a failure
@@ -742,6 +775,7 @@ def oracle_vec(inp):
     return fail("raises:ValueError", f"raised ValueError: {e}", repr(e), "a result")
   finally:
     numpy.random.set_state(state)
+  best = returned          # the point as optimize() returned it (the array itself has been through the next step since)
   allpts = [p for b in rec["evals"] for p in b]
   for p in allpts:
     if not in_domain(list(p), lb, ub, fixed, cons):
@@ -756,6 +790,9 @@ def oracle_vec(inp):
                 [float(x) for x in best], [float(x) for x in allpts[imax]])
   if not (opt.best_value == smooth_af(coef, best) and opt.best_value == vals[imax]):
     return fail("best-value-not-reproducible", "best_value differs from the acquisition function at best_location", float(opt.best_value), vals[imax])
+  if not numpy.array_equal(returned, post["returned"]) or not numpy.array_equal(returned, post["best_location"]) or post["best_value"] != vals[imax]:
+    return fail("best-location-changed-by-the-next-step", NEXT_STEP_WHAT, dict(best_location=post["best_location"].tolist(), returned_array=post["returned"].tolist()),
+                [float(x) for x in returned])
   for p in rec["routs"][0]:
     if smooth_af(coef, p) > opt.best_value:
       return fail("below-restricted-start", "best_value is lower than the value at a restricted starting point", float(opt.best_value))
@@ -777,6 +814,98 @@ def oracle_vec(inp):
       for p in after:
         if not in_domain(list(p), lb, ub, fixed, cons):
           return fail("population-outside-domain", "a population member left the domain", [float(x) for x in p])
+  return None
+
+
+def gen_twostage(rng):
+  """Input of the real two-stage optimisation: a box / constrained / partially fixed domain at one of several scales, a smooth objective whose
+  maximiser lies outside the box in most coordinates (the DE winner then sits on a face of the domain), small optimiser sizes."""
+  dim = rng.randint(2, 5)
+  constrained = rng.random() < 0.65
+  fixed = rng.random() < 0.3
+  scale = 10.0 ** rng.randint(-2, 2)
+  lb, ub, fx, cons = gen_domain(rng, dim, constrained, fixed)
+  lb, ub = [l * scale for l in lb], [u * scale for u in ub]
+  fx = [[k, v * scale] for k, v in fx]
+  cons = [[w for w in c[:-1]] + [c[-1] * scale] for c in cons]
+  coef = dict(a=[rng.uniform(0.1, 2.0) / scale ** 2 for _ in range(dim)], c=[rng.uniform(l - (u - l), u + (u - l)) for l, u in zip(lb, ub)],
+              s=rng.choice([0.0, 0.3]))
+  nrs = rng.randint(2, 6)
+  n_es = rng.randint(max(nrs, 4), 14)
+  return dict(kind="twostage", lb=lb, ub=ub, fixed=fx, cons=cons, coef=coef, n_es=n_es, nrs=nrs, n_gd=2 * nrs + rng.randint(0, 4), es_maxiter=rng.randint(0, 8),
+              gd_maxiter=rng.randint(0, 5), best1=rng.random() < 0.5, F=rng.uniform(0.1, 1.5), CR=rng.uniform(0.0, 1.0), lr=rng.choice([0.001, 0.01, 0.1]) * scale,
+              npre=rng.randint(1, 20), seed=rng.randrange(2 ** 31))
+
+
+def oracle_twostage(inp):
+  """The real vectorized_acquisition_optimization: pretest evaluation, DE stage, points near the DE result plus a sample of its ending points as
+  starts of the Adam stage.  Each optimiser gets its own recording objective.  AFTER the whole routine both optimiser objects must hold, as
+  best_location / best_value, an evaluated point of highest value among the points they evaluated with a reproducible value (the state
+  _best_location / _best_value of the property); the routine returns the gradient stage's best point; nothing is evaluated outside the domain."""
+  import dataclasses
+  import libsigopt.compute.acquisition_function_optimization as afo
+  L = _lib()
+  dim = len(inp["lb"])
+  lb, ub, fixed, cons, coef = inp["lb"], inp["ub"], inp["fixed"], inp["cons"], inp["coef"]
+  dom = L.CD(numpy.array([[l, u] for l, u in zip(lb, ub)], dtype=float))
+  if cons:
+    dom.set_constraint_list([dict(weights=numpy.array(c[:-1], dtype=float), rhs=float(c[-1])) for c in cons])
+  if fixed:
+    dom = L.FD(dom, {int(k): float(v) for k, v in fixed})
+  mid = [(l + u) / 2 for l, u in zip(lb, ub)]
+  for k, v in fixed:
+    mid[int(k)] = float(v)
+
+  class AF(L.AF):
+    def __init__(self, log):
+      self.predictor = types.SimpleNamespace(dim=dim, differentiable=True)
+      self.num_points_to_sample = 1
+      self.best_value = None
+      self.best_location = numpy.array(mid, dtype=float)     # the best observed location (a feasible point of the domain)
+      self.log = log
+
+    def _evaluate_at_point_list(self, pts):
+      self.log.append(numpy.array(pts, dtype=float).copy())
+      return numpy.array([smooth_af(coef, p) for p in pts])
+
+    def joint_function_gradient_eval(self, pts):
+      self.log.append(numpy.array(pts, dtype=float).copy())
+      g = numpy.array([[-2 * a * (x - c) + coef["s"] * math.cos(sum(p)) for a, c, x in zip(coef["a"], coef["c"], p)] for p in pts])
+      return numpy.array([smooth_af(coef, p) for p in pts]), g
+  es_log, gd_log = [], []
+  es = L.vo.DEOptimizer(dom, AF(es_log), inp["n_es"], maxiter=inp["es_maxiter"],
+                        optimizer_parameters=L.DEP(crossover_probability=inp["CR"], mutation=inp["F"], strategy="best1bin" if inp["best1"] else "rand1bin"))
+  gd = L.vo.AdamOptimizer(dom, AF(gd_log), inp["n_gd"], optimizer_parameters=L.AdamP(learning_rate=inp["lr"]), maxiter=inp["gd_maxiter"])
+
+  def fail(sig, what, observed=None, expected=None):
+    return dict(signature=f"C07:twostage:{sig}", what=f"two-stage optimisation: {what}", input=inp, observed=observed, expected=expected,
+                oracle="recording objectives around the real vectorized_acquisition_optimization + direct statement of the property")
+  info = afo.DEFAULT_NEXT_POINTS_GB_OPTIMIZER_INFO
+  small = info._replace(num_random_samples=inp["nrs"]) if hasattr(info, "_replace") else dataclasses.replace(info, num_random_samples=inp["nrs"])
+  state = numpy.random.get_state()
+  numpy.random.seed(inp["seed"])
+  afo.DEFAULT_NEXT_POINTS_GB_OPTIMIZER_INFO = small
+  try:
+    pretest = dom.generate_quasi_random_points_in_domain(inp["npre"])
+    best_point = afo.vectorized_acquisition_optimization(es, gd, pretest)
+  finally:
+    afo.DEFAULT_NEXT_POINTS_GB_OPTIMIZER_INFO = info
+    numpy.random.set_state(state)
+  for name, opt, batches in (("DE stage", es, es_log[1:]), ("Adam stage", gd, gd_log)):     # es_log[0] is the pretest batch (not evaluated by the optimiser)
+    pts = [p for b in batches for p in b]
+    for p in pts:
+      if not in_domain(list(p), lb, ub, fixed, cons):
+        return fail("evaluated-outside-domain", f"{name}: the acquisition function was evaluated outside the domain", [float(x) for x in p])
+    vals = [smooth_af(coef, p) for p in pts]
+    top = max(vals)
+    loc = numpy.array(opt.best_location, dtype=float)
+    if not any(numpy.array_equal(loc, p) and v == top for p, v in zip(pts, vals)):
+      return fail("best-location-is-not-an-evaluated-maximiser", f"{name}: after the routine the optimiser's best_location is not an evaluated point of highest value",
+                  dict(stage=name, best_location=loc.tolist()), [float(x) for x in pts[vals.index(top)]])
+    if not (opt.best_value == top and smooth_af(coef, loc) == opt.best_value):
+      return fail("best-value-not-reproducible", f"{name}: best_value differs from the acquisition function at best_location", float(opt.best_value), top)
+  if not numpy.array_equal(numpy.array(best_point, dtype=float), numpy.array(gd.best_location, dtype=float)):
+    return fail("result-is-not-the-gradient-stage-best", "the routine does not return the gradient stage's best point", [float(x) for x in best_point])
   return None
 
 
@@ -944,6 +1073,8 @@ def oracle(inp):
   try:
     if inp["kind"] == "clrounds":
       return oracle_clrounds(inp)
+    if inp["kind"] == "twostage":
+      return oracle_twostage(inp)
     if inp["kind"] == "scipycons":
       return oracle_scipycons(inp)
     if inp["kind"] == "ms":
@@ -988,6 +1119,11 @@ def oracle_scripted(inp):
                 [float(x) for x in out["best"]], [float(x) for x in allpts[imax]])
   if out["best_value"] != out["best_value"] or fr(out["best_value"]) != vals[imax]:
     return fail("best-value-not-reproducible", "best_value differs from the acquisition function at best_location", out["best_value"], float(vals[imax]))
+  post = out.get("after_next_step")
+  if post is not None and (not numpy.array_equal(out["best"], post["returned"]) or not numpy.array_equal(out["best"], post["best_location"])
+                           or post["best_value"] != out["best_value"]):
+    return fail("best-location-changed-by-the-next-step", NEXT_STEP_WHAT, dict(best_location=post["best_location"].tolist(), returned_array=post["returned"].tolist()),
+                [float(x) for x in out["best"]])
   if any(v is not None and v > vals[imax] for v in (af_exact(inp["af"], p)[0] for p in rec["routs"][0])):
     return fail("below-restricted-start", "best_value is lower than the value at a restricted starting point")
   if inp["selected"] is not None and not inp["cons"] and not (inp["kind"] == "de" and inp["maxiter"] >= 1 and len(inp["selected"]) > inp["n"]):
@@ -1133,6 +1269,9 @@ def search(ctx, hints, broken):
     n += 1
     add(oracle(dict(kind="clrounds", gp=gpgen.gen_gp_input(rng, differentiable=True, well_conditioned=True, allow_multitask=False, max_n=7, max_dim=2), k=rng.choice([2, 3]),
                     seed=rng.randrange(2 ** 31))))
+  for _ in range(ctx.n(60, 900) * (2 if broken else 1)):   # the real two-stage routine on box / constrained / fixed domains, winners on faces
+    n += 1
+    add(oracle(gen_twostage(rng)))
   for _ in range(ctx.n(120, 2500) * (2 if broken else 1)):
     inp = gen_search(rng)
     n += 1
@@ -1175,5 +1314,8 @@ LEVEL_TEXT += ("; the acquisition function of the model is partial (point -> opt
                "defined values, a batch without a defined value is the error value ValueError (C07_monitor_raises_only_without_a_value), the theorems "
                "range over every partial function: the result has a value and it is the highest evaluated one, starts and members without a value "
                "impose nothing, a trial without a value never replaces a member; the correspondence scripts functions undefined on half-spaces")
+LEVEL_TEXT += ("; searcher: constraint weights are small integers or dyadic fractions whose absolute values sum to at most 1; after every run the library's next step "
+               "(points near the returned best point) is taken and the optimiser's state re-examined; the real two-stage routine vectorized_acquisition_optimization is run on "
+               "box / constrained / partially fixed domains with recording objectives per stage (winners on faces) and both optimiser objects are examined afterwards")
 LEVEL_NOTE += ("; reading: 'all deterministic acquisition functions' includes functions undefined (NaN) at some points (the code's nanargmax anticipates "
                "them); a batch that is undefined throughout raises ValueError (void case); infinite values are not modelled")
